@@ -72,6 +72,10 @@ CHECKS = {
                 technique="same state x encoding x limit x phase enumeration as C02, x NODES format version; CLUSTER NODES and CLUSTER SLOTS of every member proxy parsed and compared with each other and with routing probes",
                 text="For every case of the C02 enumeration and every live member proxy the real CLUSTER NODES (V1 and V2 format) and CLUSTER SLOTS replies are parsed: every covered slot appears under exactly one node line / one SLOTS entry, both commands give the same slot->address map with consistent node ids; for every probe slot the advertised node equals what routing does from that proxy (itself iff executed locally, else the MOVED target); migrating slots are advertised at the source in phase A and at the destination in C/D on the two involved proxies, at either of them on bystanders.",
                 note="Same trusted base as C02."),
+    "C13": dict(engine="simnet", cat="fault_enumeration", ref="3/C13",
+                technique="enumeration of operation histories x crash point (restart from any prefix snapshot) x distribution of views held by proxies x reachability; the production recover_epoch path over loopback TCP responders; adoption replayed on real proxies with real coordinator sync rounds",
+                text="For every history up to the length bound, every prefix state as the snapshot the broker restarts from, and a systematic family of proxy-view assignments (all latest, all at the crash point, each proxy alone ahead, fresh, unreachable, odd proxies one step behind) the real MemBrokerService::recover_epoch() is executed (it dials the proxies; responders answer UMCTL GETEPOCH); oracle: every served view has an epoch strictly above every reachable proxy's epoch and every epoch in the restored snapshot, unreachable proxies are reported; on a subset, real proxies pre-loaded with their views through the real sync path adopt the recovered view within two sync rounds.",
+                note="Uses real loopback sockets on 127.0.0.1-3:7000-7001 (uncontrolled timing, controlled data; cases run sequentially). The view assignment family is systematic but not the full product of all assignments. The hook proposed in the property (caller-supplied max epoch) is not used: the production path is exercised as is."),
 }
 
 NOT_YET = {
